@@ -23,6 +23,7 @@ void h_zero_chunk(void) {
     zckCtx *tgt = malloc(sizeof(*tgt));
     V_ASSUME(tgt != NULL);
     *tgt = in.any; tgt->error_state = in.err0;
+    tgt->fd = 4;   /* fixed descriptor number (constant ghost slot, solver cost); zero_chunk only passes it on */
     zckChunk *c = malloc(sizeof(*c));
     V_ASSUME(c != NULL);
     *c = in.anyc; c->zck = tgt;
